@@ -33,6 +33,9 @@ class Stores:
         self.hook = None        # hook(kind, path, payload) called BEFORE a mutation is applied
         self.read_hook = None   # read_hook(kind, path) called before reads (slicing only)
         self.write_batch_flags = []   # (path, transaction, sync) of every batch created
+        self.batches_created = 0
+        self.batch_sizes = {}         # batch number -> number of operations when written
+        self.fault = None             # (batch number, op index): raise InjectedFault there
 
     def snapshot(self):
         return {p: dict(d) for p, d in self.data.items()}
@@ -63,23 +66,39 @@ def _prefix_end(prefix):
     return None
 
 
+class InjectedFault(Exception):
+    '''An exception raised in the middle of building a write batch (fault injection).'''
+
+
 class WriteBatch:
     def __init__(self, db, transaction, sync):
         self.db = db
         self.transaction = transaction
         self.sync = sync
         self.ops = []
+        st = db.stores
+        st.batches_created += 1
+        self.number = st.batches_created
+
+    def _maybe_fail(self):
+        f = self.db.stores.fault
+        if f and f[0] == self.number and f[1] == len(self.ops):
+            self.db.stores.fault = None
+            raise InjectedFault(f'batch {self.number} op {len(self.ops)}')
 
     def put(self, key, value):
+        self._maybe_fail()
         self.ops.append(('put', bytes(key), bytes(value)))
 
     def delete(self, key):
+        self._maybe_fail()
         self.ops.append(('delete', bytes(key), None))
 
     def clear(self):
         self.ops = []
 
     def write(self):
+        self.db.stores.batch_sizes[self.number] = len(self.ops)
         self.db._apply('batch', list(self.ops), self.sync)
         self.ops = []
 
